@@ -246,10 +246,12 @@ def run(tier, seed):
     traces += tr_cov["tlc_validated_traces"]
     replayed += tr_cov["replayed_actions"]
     n_new, n_known = verdict.report("C20", viol)
+    from . import unbounded
+    unb = unbounded.for_property("C20", tier)      # Apalache / TLAPS: warm-up schedule, epoch protocol, EMA closed form, unbounded
     cov = {"states": states, "transitions": transitions, "traces_validated_against_impl": replayed + traces,
            "training_run": {k: tr_cov[k] for k in ("replayed_runs", "replayed_actions", "tlc_validated_traces", "fit_runs", "models")},
            "samples": samples[:6], "exhaustive": True, "replayed_calls": replayed, "real_histories": traces,
-           "model_constants": CONFIGS[tier], "known_finding_witnesses": n_known,
+           "model_constants": CONFIGS[tier], "known_finding_witnesses": n_known, "unbounded": unb,
            "explanation": "Stats.tla (Welford / EMA / warm-up as exact-rational state machines) model-checked for all histories "
                           "of the scope; each history replayed into the real classes with state comparison after every call; "
                           "random longer histories of the real classes validated by StatsTrace.tla. "
